@@ -32,6 +32,11 @@ def node_pos(p0='dp0', /, a='da', *va, k='dk', **kw):
   return vfx.rec('node_pos', locals())
 
 
+def node_po3(a, b='db', c='dc', /, *rest, k='dk'):
+  """Positional-only parameters with defaults below *args."""
+  return vfx.rec('node_po3', locals())
+
+
 def node_pos2(p0='dp0', /, a='da', *va):
   """Positional-only + *args, no **kwargs."""
   return vfx.rec('node_pos2', locals())
@@ -73,6 +78,14 @@ class Other(vfx.RecObj):
 
 
 Pair = collections.namedtuple('Pair', ['first', 'second'])
+
+
+class PairSub(Pair):
+  """A class derived from a namedtuple class (adds a method)."""
+  __slots__ = ()
+
+  def swapped(self):
+    return PairSub(self.second, self.first)
 
 
 class Color(enum.Enum):
@@ -196,7 +209,9 @@ class DC:
 def failer(x='dx', y='dy'):
   """Records its invocation, then raises whatever vfx.FAIL['exc'] makes."""
   r = vfx.rec('failer', locals())
-  raise vfx.FAIL['exc']()
+  if 'exc' in vfx.FAIL:
+    raise vfx.FAIL['exc']()
+  return r
 
 
 class FailerInstance:
